@@ -57,6 +57,15 @@ def universe(tier):
     nodes += [Task("k", _f, Dict({"a": TaskRef("a")})), Task("k", _f, {"a": TaskRef("a")}), Task("k", _f, List(TaskRef("a"))), Task("k", _f, [TaskRef("a")]),
               Task("k", _f, List(1, TaskRef("a")), y=Tuple(TaskRef("b"), 2)), Task("k", _f, Tuple(1, TaskRef("a")), y=List(TaskRef("b"), 2)),
               Dict("a", 1, "a", TaskRef("a")), Dict("a", 1, "a", TaskRef("b"))]
+    # nested tasks that share a key (keys are not part of a node's identity) next to the same node with distinct / no
+    # nested keys; partials of one function that bind "the same things" positionally and by keyword
+    import functools
+    for k1, k2 in (("p", "p"), ("p0", "p1"), (None, None)):
+        nodes.append(Task("k", _f, Task(k1, _f, TaskRef("a"), 10), Task(k2, _f, TaskRef("a"), 100)))
+        nodes.append(List(Task(k1, _f, TaskRef("a"), 10), Task(k2, _f, TaskRef("a"), 100)))
+    nodes += [Task("k", functools.partial(_f, ("unit", 3)), TaskRef("a")), Task("k", functools.partial(_f, unit=3), TaskRef("a")),
+              Task("k", functools.partial(_f, ("unit", 3), w=1), TaskRef("a")), Task("k", functools.partial(_f, unit=3, w=1), TaskRef("a")),
+              Task("k", functools.partial(_f, 1, 2), TaskRef("a")), Task("k", functools.partial(_f, (1, 2)), TaskRef("a"))]
     order = os.environ.get("VF_UNIVERSE_ORDER")
     if order:
         # which class is tokenized first in the process matters to dispatch caches: put one kind of node first
@@ -305,6 +314,23 @@ def legacy_sweep(tier, seed=0):
             msg = f"{type(e).__name__}: {e}"
         if msg:
             fails.append(rtc.Failure("convert_legacy_task", {"term": repr(term), "dict_with_reference": False, "mixed": True}, "ensures", "C08-legacy-meaning-preserved", msg))
+    # nested calls whose arguments are equal but of different types (1 == 1.0 == True, 0.0 == -0.0): each call keeps ITS literal
+    def _ty(*a):
+        return tuple(f"{type(x).__name__}:{x!r}" for x in a)
+
+    for term in [(_g, (_ty, 1), (_ty, 1.0), (_ty, True)), (_g, (_ty, 0.0), (_ty, -0.0)), [(_ty, 1.0), (_ty, 1)], (_g, (_ty, True), [(_ty, 1)]), (_g, (_ty, (1, 2)), (_ty, (1.0, 2.0)))]:
+        cases += 1
+        dsk = dict(base, w=term)
+        try:
+            want, _used = legacy_ref(term, env, keys - {"w"})
+            import dask.core as _core2
+            outs = {"get_sync": get_sync(dsk, "w"), "dask.core.get": _core2.get(dict(dsk), "w")}
+            bad = [(h_, v) for h_, v in outs.items() if repr(v) != repr(want)]
+            msg = None if not bad else f"{bad[0][0]} computes {bad[0][1]!r}, legacy semantics give {want!r}"
+        except Exception as e:  # noqa
+            msg = f"{type(e).__name__}: {e}"
+        if msg:
+            fails.append(rtc.Failure("convert_legacy_task", {"term": repr(term), "dict_with_reference": False, "typed_literals": True}, "ensures", "C08-legacy-meaning-preserved", msg))
     # nested calls that raise: the exception of the legacy semantics (innermost call first) must come out, whatever its
     # type -- StopIteration included -- and never a value
     def _raiser(kind):
